@@ -301,5 +301,52 @@ pub fn run(a: &Args) {
         let cls = if !x.is_finite() { "non-finite" } else if x.abs() >= 9e18 { "boundary" } else if x < 0.0 { "negative" } else { "plain" };
         out.emit(json!({"op":"sd_float","cls":cls,"f":f64_parts(x),"from":from}));
     }
+    // duration x float, duration / float, duration / duration (documented to panic when the result is not representable)
+    let factors: Vec<f64> = {
+        let mut v = vec![0.0, -0.0, 1.0, -1.0, 0.5, 2.0, 1e-9, 1e9, 3.141592653589793, -2.718281828459045, 1e-300, 1e300, f64::NAN, f64::INFINITY,
+                         f64::NEG_INFINITY, 0.1, 1.0 / 3.0, 4294967296.0, 9.223372036854775e18, 1.0000000000000002, 0.9999999999999999];
+        for _ in 0..(if quick { 40 } else { 600 }) {
+            v.push(match rng.next() % 3 {
+                0 => rng.range(-1_000_000, 1_000_000) as f64 / 1000.0,
+                1 => f64::from_bits(rng.next()),
+                _ => (rng.range(1, 1 << 52) as f64) * 2f64.powi(rng.range(-80, 30) as i32) * if rng.chance(1, 2) { -1.0 } else { 1.0 },
+            });
+        }
+        v
+    };
+    let durs: Vec<SignedDuration> = {
+        let mut v = vec![SignedDuration::ZERO, SignedDuration::MAX, SignedDuration::MIN, SignedDuration::new(1, 0), SignedDuration::new(-1, 0),
+                         SignedDuration::new(0, 1), SignedDuration::new(0, -1), SignedDuration::new(12, 500_000_000), SignedDuration::new(-3600, -1),
+                         SignedDuration::new(1 << 53, 1), SignedDuration::new(-(1 << 53), -999_999_999), SignedDuration::new(631_107_417_600, 0)];
+        for _ in 0..(if quick { 30 } else { 300 }) {
+            let sec = match rng.next() % 3 {
+                0 => rng.range(-1_000_000, 1_000_000),
+                1 => rng.range(i64::MIN / 2, i64::MAX / 2),
+                _ => rng.range(-100_000_000_000, 100_000_000_000),
+            };
+            let ns = rng.range(0, 999_999_999) as i32;
+            v.push(SignedDuration::new(sec, if sec < 0 { -ns } else { ns }));
+        }
+        v
+    };
+    let fres = |r: Result<SignedDuration, String>| match r {
+        Ok(d) => json!({"st":"ok","v":jsd(d)}),
+        Err(_) => json!({"st":"panic","v":jsd(SignedDuration::ZERO)}),
+    };
+    for d in &durs {
+        for &f in &factors {
+            let cls = if !f.is_finite() { "non-finite" } else if f == 0.0 { "zero-factor" } else { "float-arith" };
+            out.emit(json!({"op":"sd_fmul","cls":cls,"kind":"mul","a":jsd(*d),"f":f64_parts(f),"res":fres(guard(|| d.mul_f64(f)))}));
+            out.emit(json!({"op":"sd_fmul","cls":cls,"kind":"div","a":jsd(*d),"f":f64_parts(f),"res":fres(guard(|| d.div_f64(f)))}));
+        }
+        for e in durs.iter().step_by(3) {
+            let q = guard(|| d.div_duration_f64(*e));
+            let (st, qf) = match q {
+                Ok(x) => ("ok", f64_parts(x)),
+                Err(_) => ("panic", f64_parts(0.0)),
+            };
+            out.emit(json!({"op":"sd_fratio","cls":"float-arith","a":jsd(*d),"b":jsd(*e),"st":st,"q":qf}));
+        }
+    }
     out.finish();
 }
